@@ -92,6 +92,14 @@ def r3(ctx):
         ctx.check('%s|usable-value' % fn, ok, 'set_usable receives `%s`' % v[:200], su.where(), sample=v[:260])
         ctx.check('%s|source_info' % fn, 'self.source_info' in v, 'usability is not computed from the shared source_info', su.where(), sample='self.source_info' in v)
         ctx.check('%s|set_usable-on-every-normal-path' % fn, True, '', sample=fn)
+    # the snapshot that decides usability must already contain the poll being sent: reach.poll() (the shift of the 8-bit register that makes a
+    # silent source unreachable) precedes NtpSourceSnapshot::from_source / set_usable on every path of handle_timer
+    b = P.body(SRC + '::handle_timer')
+    rp = one(b.calls(r'Reach::poll$'), 'reach.poll() in handle_timer')
+    for c in b.calls(r'NtpSourceSnapshot::from_source$') + b.calls(r'SourceController::set_usable$'):
+        ctx.check('handle_timer|%s|after-reach-poll' % site_desc(b, c), must_pass_block_from(b, 0, c.bb, [rp.bb]) and not b.can_reach(c.bb, rp.bb),
+                  'the usability snapshot is taken before the current poll is counted in the reachability register: a source that just became unreachable is still reported usable',
+                  c.where(), sample=True)
     who = sorted({c[0].npath for c in P.callers_of(SNAP + '::accept_synchronization')})
     ctx.check('who-calls-accept_synchronization', {SRC + '::handle_timer', SRC + '::process_message'} <= set(who), 'callers: %s' % who, sample=who)
 
@@ -132,4 +140,4 @@ def r4(ctx):
 
 
 RULES = [r1, r2, r3, r4]
-FLOORS = {'C33-R1': 6, 'C33-R2': 7, 'C33-R3': 5, 'C33-R4': 8}
+FLOORS = {'C33-R1': 6, 'C33-R2': 7, 'C33-R3': 9, 'C33-R4': 8}
